@@ -6,7 +6,7 @@ ROOT = os.path.dirname(os.path.dirname(os.path.abspath(__file__)))
 # id -> (technique, level text, level note, design ref)
 CLAIMED = {
  "C18": ("proptest over generated declarations (programs) in both macro syntaxes: in-process run of the macro's own source + syn-based interpretation of the generated tables, systematic one-edit broken declarations, and a compiled batch through the real proc-macros and rustc checked by a generic run-time driver",
-         "4 000 valid + 8 000 broken declarations in-process (quick; 150 000 + 300 000 thorough): both front ends succeed with token-identical output whose tables equal the declaration plus Crc32/Void/RawTag; attribute order per variant (all 6 orders of id / data_type / doc_path) and variant order are generated too; each of 14 kinds of broken declaration is rejected. 1 (quick) / 8 (thorough) batches of 24 declarations are compiled through #[ebml_specification] and easy_ebml! and every trait function is checked for declared and probe ids, every accessor, raw tags, and iterator/writer use; 2 / 6 crates with an unknown attribute on a variant must fail to compile.",
+         "4 000 valid + 8 000 broken declarations in-process (quick; 150 000 + 300 000 thorough): both front ends succeed with token-identical output whose tables equal the declaration plus Crc32/Void/RawTag; attribute order per variant (all 6 orders of id / data_type / doc_path), variant order and — in half of the declarations — variant names over a two-letter alphabet (so that names are concatenations of other names) are generated too; each of 14 kinds of broken declaration is rejected. 1 (quick) / 8 (thorough) batches of 24 declarations are compiled through #[ebml_specification] and easy_ebml! and every trait function is checked for declared and probe ids, every accessor, raw tags, and iterator/writer use; 2 / 6 crates with an unknown attribute on a variant must fail to compile.",
          "trusted: syn parse of the generated code; the declaration table emitted next to each compiled declaration; rustc", "4.18"),
  "C20": ("exhaustive enumeration of every partition of small inputs + proptest over (input, async read partition, Poll::Pending pattern, buffered set) with a harness-owned scripted AsyncRead on block_on; differential oracle against the blocking iterator; libFuzzer on the same stage (thorough)",
          "every composition (2^(n-1) partitions) of 80 (quick) / 250 (thorough) small documents of up to 12 / 15 bytes, with and without Pending polls and buffered masters, plus 320 000 (quick) / 2 M (thorough) random partitions of generated, mutated and adversarial inputs (1-byte reads, reads that end inside ids, sizes and payloads, 1 in 12 inputs larger than the 64 KiB transfer buffer, all buffered sets), plus the two pinned inputs of the repaired defect D14: items, offsets, errors (both iterators are driven past up to three undecodable payloads) and termination (None exactly once, and again afterwards) must equal the blocking iterator over the whole slice; next() and into_stream() both driven.",
@@ -18,16 +18,16 @@ CLAIMED = {
          "160 000 + 160 000 (quick) / 800 000 + 800 000 (thorough) inputs, each read under all 8 subsets of tolerated classes (a third of the cases a second time with the classes handed to allow_errors() in reverse order and each twice: same observations): own-class error kind at the fault's offset when not tolerated, never when tolerated, no raw tags without InvalidTagIds, strict items are a prefix of tolerant items; the size limit's threshold (M passes, M+1 fails, default 4e9 untouched) is enumerated first, on master headers, for 6 limits × 5 sizes × 3 widths × all 8 tolerance subsets × {root, inside a known-size parent it overruns, inside an unknown-size parent}: no tolerance switch relaxes the limit.",
          "trusted: reference encoder layout for the fault's offset; faults are built so that the other classes' conditions are false at the faulty element", "4.13"),
  "C14": ("proptest documents × exhaustive enumeration of every tag boundary as junk insertion point; oracle = undamaged parse shifted by the junk length, precondition decided from the reference layout",
-         "48 000 (quick) / 250 000 (thorough) known-size documents, junk of 1-12 bytes (byte values that start no declared id) inserted at every boundary between two tags and at one random position; read from a slice or in short reads, with a small or default buffer, strictly or with hierarchy / oversized-element errors tolerated (never invalid ids: junk stays junk); with the precondition true: same prefix, exactly one error, try_recover Ok, rest identical with shifted offsets; always: no panic, only EOF/read errors from try_recover, never backwards.",
+         "48 000 (quick) / 250 000 (thorough) known-size documents, junk of 1-12 bytes, one run in five of 13-50 bytes, a third of the runs all zeroes or ending in zeroes (byte values that start no declared id) inserted at every boundary between two tags and at one random position; read from a slice or in short reads, with a small or default buffer, strictly or with hierarchy / oversized-element errors tolerated (never invalid ids: junk stays junk); with the precondition true: same prefix, exactly one error, try_recover Ok, rest identical with shifted offsets; always: no panic, only EOF/read errors from try_recover, never backwards.",
          "trusted: reference encoder layout for the precondition; the undamaged parse (anchored by C01/C03)", "4.14"),
  "C17": ("proptest over element headers with adversarial declared sizes × limits × capacities × tolerance, measured with a counting global allocator (thread-local peak); oracle = explicit byte bounds",
          "200 000 + 200 000 + 320 000 (quick) / 1 M + 1 M + 1.5 M (thorough) cases (a first pass with every declared size <= 64 MiB, so that a limit that is not enforced costs measurable megabytes rather than the process; then the whole range): a header declaring S in every representable width at root / inside known / inside unknown-size parents under limit M: S > M must be rejected with peak heap growth <= 2·cap + 4 KiB and no oversized read request — also when next() is simply called again after the size error; S <= M with missing payload <= 4·max(S,cap) + 4 KiB + payload present; whole parses of generated / mutated / adversarial streams under limit M <= 4·max(M,cap) + 8 KiB (the factor 4 is what a moving realloc of the doubling Vec costs, DESIGN 14.7); 16 000 (quick) / 60 000 (thorough) long streams of elements just within the limit: memory must not creep up.",
          "trusted: the counting allocator (thread-local); declared sizes within the limit are capped at 4 MiB for cost; only heap is measured", "4.17"),
  "C09": ("proptest over (forest, collapse choices, per-element options, short-write schedule); paired-run byte equality + reference header walk of the output",
-         "320 000 (quick) / 1.5 M (thorough) generated documents are written in paired presentations (Full vs Start/End — masters inside a Full item given as nested Full or as Start/End children of it —, deprecated vs option-based unknown size, explicit widths vs defaults, scripted short-write destination vs Vec); outputs must be byte-identical, explicit widths are read back with the reference header parser and ids/payloads must be unchanged.",
+         "320 000 (quick) / 1.5 M (thorough) generated documents (one in 40 with a payload of 64 KiB or more) are written in paired presentations (Full vs Start/End — masters inside a Full item given as nested Full or as Start/End children of it —, deprecated vs option-based unknown size, explicit widths vs defaults, scripted short-write destination vs Vec); outputs must be byte-identical, explicit widths are read back with the reference header parser and ids/payloads must be unchanged.",
          "trusted: ref_header walk; widths drawn from those that fit", "4.9"),
  "C10": ("model-based proptest: generated valid call sequences, invariant checked after every call against a model of the open stack and the strict iterator over the destination",
-         "320 000 (quick) / 1.5 M (thorough) call sequences; after each call: destination only grows and is a prefix of the final output; after a completed write with no known-size master open the destination parses to exactly the accepted tags (+ Ends of open unknown-size masters); nothing of an open known-size master is handed over; flush()/into_inner() closes and delivers everything. A third of the sequences contain calls that must be refused (the kinds of C19), a third hand some leaves over through write_raw(); second stage (80 000 / 400 000 cases): a master End refused for its width leaves the master open, so nothing of it may reach the destination whatever the following calls return.",
+         "320 000 (quick) / 1.5 M (thorough) call sequences (one in 40 with a payload of 64 KiB or more); after each call: destination only grows and is a prefix of the final output; after a completed write with no known-size master open the destination parses to exactly the accepted tags (+ Ends of open unknown-size masters); nothing of an open known-size master is handed over; flush()/into_inner() closes and delivers everything. A third of the sequences contain calls that must be refused (the kinds of C19), a third hand some leaves over through write_raw(); second stage (80 000 / 400 000 cases): a master End refused for its width leaves the master open, so nothing of it may reach the destination whatever the following calls return.",
          "trusted: the model in the harness, the iterator as a parser of the destination (anchored by C03/C06/C12), ref_header walk for offsets in the final output", "4.10"),
  "C11": ("proptest specs × constructed chains × exhaustive enumeration of every spec element under every chain prefix, writer and reader; oracle = backtracking reference matcher ref_match (+ ref_closes for unknown-size chains)",
          "48 000 (quick) / 250 000 (thorough) specifications, 5 chains each (instantiated from declared paths with boundary counts per placeholder, edited, random; unreachable chains opened through the unknown-size option), every element offered at every chain prefix, on the writer side with a whole Full master (acceptable or refused) written before the offers now and then, so that a verdict depending on history shows: ~12 M writer/reader decisions per quick run, confusion matrix in the evidence (disagreement cells must be 0).",
@@ -54,7 +54,7 @@ CLAIMED = {
          "640 000 (quick) / 3 M (thorough) generated documents under generated specifications and the macro-derived RichSpec are written through TagWriter with every presentation (default, width 1-8, unknown size, Full with nested Full or Start/End children, raw tags, leaves through write_raw) and read back by the strict iterator; the expected item sequence is the generator's own flattening of the tree, so a symmetric writer+reader bug still shows whenever it changes a value or the structure. Sampling, not exhaustive: depth <= 7, <= 60 elements, payload <= 16 385 bytes (2 MiB in a thorough sub-stage).",
          "trusted: generator-side flatten(), DynSpec consistency; ambiguous shapes (global element right after an unknown-size master, unknown size on masters with placeholder paths) are excluded by construction and counted", "4.1"),
  "C07": ("proptest-generated forests × exhaustive enumeration of all 2^m unknown-size subsets (m <= 8), two encoders, equality with the all-known-size reading",
-         "For each of 80 000 (quick) / 500 000 (thorough) generated forests with at most 8 master instances every subset of them is encoded with unknown size (real writer: 8-byte marker; reference encoder: all-ones in width 1-8) and the strict reading — and the reading under one generated non-empty set of tolerated error classes — must equal flatten(forest) including the position of every End; 64 sampled subsets beyond 8 masters. Exhaustive over subsets per document, sampled over documents/specifications.",
+         "For each of 80 000 (quick) / 500 000 (thorough) generated forests (one in five under a recursive template specification) with at most 8 master instances every subset of them is encoded with unknown size (real writer: 8-byte marker; reference encoder: all-ones in width 1-8) and the strict reading — and the reading under one generated non-empty set of tolerated error classes — must equal flatten(forest) including the position of every End; 64 sampled subsets beyond 8 masters. Exhaustive over subsets per document, sampled over documents/specifications.",
          "trusted: reference encoder, generator-side flatten(); ref_closes() decides which subsets are ambiguous and therefore skipped (counted)", "4.7"),
  "C12": ("proptest-generated documents × exhaustive enumeration of every cut position; oracle = layout of the independent reference encoder",
          "Every byte position of each of 32 000 (quick) / 200 000 (thorough) generated documents (canonical and non-canonical encodings, known/unknown sizes, 1-8 byte ids) is used as truncation point under a slice source, 1-byte reads or pseudo-random chunking and several capacities; expected prefix, closing Ends and every field of the UnexpectedEOF error are computed from the encoder's layout, never from the reader. Exhaustive over cuts per document, sampled over documents. Second stage: 1 500 (quick) / 12 000 (thorough) documents with one payload of 65-145 KB (beyond the 64 KiB default buffer), ~27 sampled cuts each (element ends, multiples of 64 KiB inside the payload, random).",
@@ -63,7 +63,7 @@ CLAIMED = {
          "Every value below 2^23 (quick) / 2^28 (thorough) in all nine encoder variants and through every implementation of the Vint trait (u64, u32, u16, u8) that can hold the value, |v| < 2^22 / 2^27 signed, every byte slice of length <= 3, every id candidate below 2^24, a lattice around every power-of-two boundary, and random 64-bit values are compared with a reference codec written from RFC 8794. Exhaustive inside those bounds, sampled outside; the functions are pure so there is no state to miss.",
          "trusted: the reference codec in harness/core/src/refmodel.rs (unit-tested against the crate's documented examples); widths 1..8 only", "4.15"),
  "C16": ("exhaustive enumeration of slices <= 2-3 bytes + bit lattice + proptest random slices / written values against from_be_bytes reference decoders",
-         "All slices of length <= 3, a bit lattice for lengths 3..16 and random slices of 0..16 bytes are decoded by arr_to_u64/i64/f64 and by reference decoders; boundary and random u64/i64/f64 values are written through TagWriter — with default options and with every explicit size-field width 1-8 —, the payload located with the reference header parser, its width checked against the minimal 1/2/4/8 rule and decoded by library, reference and iterator.",
+         "All slices of length <= 3, a bit lattice for lengths 3..16 and random slices of 0..16 bytes are decoded by arr_to_u64/i64/f64 and by reference decoders; boundary and random u64/i64/f64 values are written through TagWriter — with default options and with every explicit size-field width 1-8 —, the payload located with the reference header parser, its width checked against the minimal 1/2/4/8 rule and decoded by library, reference and iterator (from a slice, and — followed by a second copy — through 1-byte reads into a 16-byte buffer).",
          "trusted: reference decoders (from_be_bytes based) and reference header parser", "4.16"),
 }
 TODO_REASON = "not claimed"
